@@ -138,3 +138,56 @@ const (
 	tokAND = token.AND
 	tokREM = token.REM
 )
+
+// simpleHooks keeps selected module functions as opaque calls (pure: no
+// effect on memory, result = call term) and pins root parameters and initial
+// memory contents.
+type simpleHooks struct {
+	sym.NoHooks
+	opaque    map[string]bool
+	paramPins map[string]*sym.Term
+	pins      map[string]*sym.Term // object id + "|" + path -> term
+}
+
+func newSimpleHooks(opaque ...string) *simpleHooks {
+	h := &simpleHooks{opaque: map[string]bool{}, paramPins: map[string]*sym.Term{}, pins: map[string]*sym.Term{}}
+	for _, o := range opaque {
+		h.opaque[o] = true
+	}
+	return h
+}
+
+func (h *simpleHooks) Init(o *sym.Object, p sym.Path, t types.Type) *sym.Term {
+	if v, ok := h.pins[o.ID+"|"+p.String()]; ok {
+		return v
+	}
+	return nil
+}
+
+func (h *simpleHooks) Pin(fr *sym.Frame, v ssa.Value) *sym.Term {
+	if fr.Parent == nil {
+		if p, ok := v.(*ssa.Parameter); ok {
+			if t, ok := h.paramPins[p.Name()]; ok {
+				return t
+			}
+		}
+	}
+	return nil
+}
+
+func (h *simpleHooks) Call(in *sym.Interp, fr *sym.Frame, site ssa.CallInstruction, callee *ssa.Function, args []*sym.Term) (bool, *sym.Term) {
+	if site == nil || callee == nil || !h.opaque[callee.Name()] {
+		return false, nil
+	}
+	var rt types.Type
+	if rs := callee.Signature.Results(); rs.Len() == 1 {
+		rt = rs.At(0).Type()
+	} else if rs.Len() > 1 {
+		rt = rs
+	}
+	in.Emit(fr, "opaquecall", site, callee.Name(), args, fr.Mem())
+	if rt == nil {
+		return true, nil
+	}
+	return true, sym.Call(callee.Name(), rt, args...)
+}
